@@ -147,6 +147,15 @@ with futures.ProcessPoolExecutor(2) as pool:
     except Exception as e:
         out["unpicklable"] = "raised"
     out["state"] = sorted(set(pool.map(F.bump_global, range(6))))[:1]
+with futures.ProcessPoolExecutor(3, initializer=F.set_shared, initargs=(40, 2)) as pool:
+    out["initializer"] = sorted(set(pool.map(F.read_shared, range(7))))
+out["initializer_parent_untouched"] = F._SHARED
+pool = futures.ProcessPoolExecutor(2, initializer=F.bad_init)
+try:
+    out["bad_initializer"] = pool.submit(F.square, 3).result()
+except Exception as e:
+    out["bad_initializer"] = type(e).__name__
+pool.shutdown()
 pool = futures.ProcessPoolExecutor(1)
 pool.shutdown()
 try:
